@@ -119,10 +119,13 @@ def bin_iter(fn, op, types, schema_of, props, vvplain):
     header(fn, props)
     lets(["a", "b"], types)
     alias_req("a", "b")
-    w('//@   requires [pos] gh("it_pos", ait) == 0 && gh("it_pos", bit) == 0 && ait.val != bit.val')
+    # an operand that holds a single element is read as a scalar and its iterator (possibly nil) is not used
     for T in types:
         av, bv = V("a", T), V("b", T)
-        w('//@   requires [range_%s] t == rtype("%s") ==> (forall p :: 0 <= p && p < it_len(ait) ==> 0 <= it_seq(ait, p) && it_seq(ait, p) < len(%s)) && (forall p :: 0 <= p && p < it_len(bit) ==> 0 <= it_seq(bit, p) && it_seq(bit, p) < len(%s))' % (T, T, av, bv))
+        w('//@   requires [pos_%s] t == rtype("%s") ==> (len(%s) != 1 ==> gh("it_pos", ait) == 0) && (len(%s) != 1 ==> gh("it_pos", bit) == 0) && (len(%s) != 1 && len(%s) != 1 ==> ait.val != bit.val)' % (T, T, av, bv, av, bv))
+    for T in types:
+        av, bv = V("a", T), V("b", T)
+        w('//@   requires [range_%s] t == rtype("%s") ==> (len(%s) != 1 ==> (forall p :: 0 <= p && p < it_len(ait) ==> 0 <= it_seq(ait, p) && it_seq(ait, p) < len(%s))) && (len(%s) != 1 ==> (forall p :: 0 <= p && p < it_len(bit) ==> 0 <= it_seq(bit, p) && it_seq(bit, p) < len(%s)))' % (T, T, av, av, bv, bv))
     for T in types:
         av, bv = V("a", T), V("b", T)
         sfx = schema_of(op, T)
@@ -331,6 +334,34 @@ def bin_dest(fn, op, types, dest, incr):
 for op, types in ARITH_T.items():
     bin_dest(op + "Incr", op, types, "incr", True)
     bin_dest(op + "Recv", op, types, "recv", False)
+
+# ---------------- binary arithmetic, iterator + increment destination ----------------
+def bin_iterincr(fn, op, types):
+    header(fn, "C06 C07 C17")
+    lets(["a", "b", "incr"], types)
+    alias_req("a", "b")
+    w("//@   requires [dest_storage] incr.Raw.arr != a.Raw.arr && incr.Raw.arr != b.Raw.arr")
+    for T in types:
+        av, bv, dv = V("a", T), V("b", T), V("incr", T)
+        iitc = "!(len(%s) == 1 && len(%s) == 1 && len(%s) == 1)" % (av, bv, dv)
+        w('//@   requires [pos_%s] t == rtype("%s") ==> (len(%s) != 1 ==> gh("it_pos", ait) == 0) && (len(%s) != 1 ==> gh("it_pos", bit) == 0) && (%s ==> gh("it_pos", iit) == 0) && (len(%s) != 1 && len(%s) != 1 ==> ait.val != bit.val) && (len(%s) != 1 && %s ==> ait.val != iit.val) && (len(%s) != 1 && %s ==> bit.val != iit.val)'
+          % (T, T, av, bv, iitc, av, bv, av, iitc, bv, iitc))
+        w('//@   requires [range_%s] t == rtype("%s") ==> (len(%s) != 1 ==> (forall p :: 0 <= p && p < it_len(ait) ==> 0 <= it_seq(ait, p) && it_seq(ait, p) < len(%s))) && (len(%s) != 1 ==> (forall p :: 0 <= p && p < it_len(bit) ==> 0 <= it_seq(bit, p) && it_seq(bit, p) < len(%s))) && (%s ==> (forall p :: 0 <= p && p < it_len(iit) ==> 0 <= it_seq(iit, p) && it_seq(iit, p) < len(%s)))'
+          % (T, T, av, av, bv, bv, iitc, dv))
+        # a vector destination with two single-element operands is handled by E.AddIter(incr, a): nothing else to require
+    for T in types:
+        av, bv = V("a", T), V("b", T)
+        w('//@   ensures [operands_%s] t == rtype("%s") && !(len(%s) == 1 && len(%s) == 1) ==> unchanged(%s) && unchanged(%s)' % (T, T, av, bv, av, bv))
+    unsupported(types)
+    for T in ARITH_T["Add"]:
+        if T not in types:
+            for h in ("incr", "a"):
+                w('//@   let %s = tview("%s", %s)' % (V(h, T), T, h))
+    assigns(["incr", "a"], ARITH_T["Add"], ', gh("it_pos", ait), gh("it_pos", bit), gh("it_pos", iit)')
+    w("")
+
+for op, types in ARITH_T.items():
+    bin_iterincr(op + "IterIncr", op, types)
 
 hdr = """//go:build verif
 
